@@ -669,6 +669,14 @@ def fam_recerr(rnd, i):
     x = d + ("x",)
     # an earlier event holds the reader back (nobody is receiving)
     steps += [fs("create", d + ("f0",)), fs("chmod", d + ("f0",)), fs("chmod", d + ("f0",))]
+    if rnd.random() < 0.4:
+        # ... or by a regular file: it must not be taken for the new directory (no watch on it: its changes are reported once,
+        # by the directory's watch), and nothing goes on Errors
+        moved = rnd.random() < 0.3
+        steps += [fs("mkdir", x)] + ([fs("rename", x, to=d + ("xgone",))] if moved else [fs("rmdir", x)]) + [fs("create", x)]
+        steps += [drain(w), obs(w), fs("write", x), drain(w), fs("chmod", x), drain(w), obs(w), call(w, "close"), drain(w), obs(w),
+                  {"s": "recurse", "recurse": False}]
+        return steps
     steps += [fs("mkdir", x), fs("rmdir", x), fs("symloop", x)]
     steps += [{"s": "drain", "w": w, "only": "ev"}]
     mode = rnd.choice(["calls", "calls", "close", "late"])
@@ -859,6 +867,14 @@ def fam_recurse(rnd, i):
                         steps += [fs("rename", a, to=b), drain(w), fs("create", b + ("in",)), drain(w)]
                         dirs = [b + d[len(a):] if d[:len(a)] == a else d for d in dirs]
                         continue
+                if rnd.random() < 0.12 and len(a) >= 2:
+                    # renamed OVER an empty directory of the tree (rename(2) allows that): the victim's end must not take the
+                    # mover's place in the tables
+                    victim = a[:-1] + ("vic%d" % cnt[0],)
+                    cnt[0] += 1
+                    steps += [fs("mkdir", victim), drain(w), fs("rename2", a, to=victim), drain(w), fs("create", victim + ("ov",)), drain(w), obs(w)]
+                    dirs = [victim + d[len(a):] if d[:len(a)] == a else d for d in dirs]
+                    continue
                 if rnd.random() < 0.12:
                     # moved away and back, and a new directory made under the intermediate name, before any of it is handled:
                     # the pending "moved to b" must not be taken for the new b (found by the bounded model MC_Recurse)
